@@ -830,7 +830,8 @@ input::
                 t = t['target'] if 'target' in t else None
                 if t is None:
                     t = cn.impose_at(*to.select_params(self,collapses[k]))
-                else:
+                else: # (a list of targets holds one target per parameter)
+                    if hasattr(t, '__len__'): t = [t[i] for i in collapses[k]]
                     t = cn.impose_at(collapses[k],t)
                 conditions.append(t)
             elif k.startswith('CollapseAs'):
